@@ -560,6 +560,26 @@ func scenario(e *simcore.Env, tp *simcore.Tape, g engine) {
 	}
 	e.Event("before: live node returns %d rows, agrees with the model", before.n)
 
+	// --- fault: the leftover of a crashed atomic manifest write (WriteAtomic died between writing <epoch>.snp.tmp and the
+	// rename; a later restart does not remove it from a shard root): a stale *.snp.tmp in some shard directories
+	if tp.Side().Bool(1, 3) {
+		shards, _ := filepath.Glob(filepath.Join(dirA, "*", "data", "*", "seg-*", "shard-*"))
+		sort.Strings(shards)
+		planted := 0
+		for _, sd := range shards {
+			if tp.Side().Bool(1, 2) {
+				name := fmt.Sprintf("%016x.snp.tmp", []int{0, 1, 1 << 20}[tp.Side().Choose(3)])
+				if os.WriteFile(filepath.Join(sd, name), []byte(`["00000000000000`), 0o600) == nil {
+					planted++
+				}
+			}
+		}
+		if planted > 0 {
+			e.Probe("fault.stale_manifest_tmp_in_shard_root")
+			e.Event("fault: %d stale .snp.tmp file(s) planted in shard roots", planted)
+		}
+	}
+
 	// --- phase C: optional idle period (older segments idle-close), optional late batches
 	if tp.Bool(1, 2) {
 		advance(time.Duration(tp.Range(75, 200))*time.Minute, "idle")
